@@ -1,0 +1,19 @@
+//go:build verif
+
+package ntm
+
+import (
+	"github.com/icon-project/goloop/common/crypto"
+	"github.com/icon-project/goloop/module"
+)
+
+// VerifC29Proof builds a secp256k1 proof object directly from a signature
+// vector (nil = empty slot), bypassing the codec.
+func VerifC29Proof(sigs []*crypto.Signature) module.BTPProof {
+	return &secp256k1Proof{Signatures: sigs}
+}
+
+// VerifC29Part builds a proof part with an arbitrary index.
+func VerifC29Part(idx int, sig *crypto.Signature) module.BTPProofPart {
+	return &secp256k1ProofPart{Index: idx, Signature: sig}
+}
